@@ -949,9 +949,11 @@ class String2Key(Field):
         if self.specifier == String2KeyType.GNUExtension:
             _bytes += b'\x00GNU'
             _bytes.append(self.gnuext)
-            if self.scserial:
-                _bytes.append(len(self.scserial))
-                _bytes += self.scserial
+            if self.gnuext == S2KGNUExtension.Smartcard:
+                # parse() reads a length octet for every card stub, also when no serial number follows it
+                serial = self.scserial or b''
+                _bytes.append(len(serial))
+                _bytes += serial
         return _bytes
 
     def __len__(self):
